@@ -959,6 +959,10 @@ class Interp:
                 return a + b
             if op == '+' and isinstance(a, (str, Opaque)) and isinstance(b, (str, Opaque)):
                 return Opaque('fstring')
+            if self.contract is not None and self.contract.defs.get('opaque_arith') and \
+                    (isinstance(a, Opaque) or isinstance(b, Opaque)):
+                # bookkeeping values (e.g. unit name dictionaries): result is again opaque
+                return Opaque('arith')
             if op in ('+', '%') and (isinstance(a, (str, Opaque)) and getattr(a, 'name', 'x') in
                                      ('fstring', 'fmtstring', 'x') or isinstance(a, str)):
                 return Opaque('fstring')
@@ -968,11 +972,39 @@ class Interp:
         if isinstance(a, (list, tuple)) and op == '*' and isinstance(b, int):
             return a * b
         if isinstance(a, SObj) or isinstance(b, SObj):
+            names = {'+': ('__add__', '__radd__'), '-': ('__sub__', '__rsub__'), '*': ('__mul__', '__rmul__'),
+                     '/': ('__truediv__', '__rtruediv__'), '**': ('__pow__', '__rpow__')}.get(op)
+            if names:
+                if isinstance(a, SObj) and self.find_dunder(a, names[0]):
+                    return self.call_dunder(a, names[0], [b])
+                if isinstance(b, SObj) and self.find_dunder(b, names[1]):
+                    return self.call_dunder(b, names[1], [a])
             raise Unsupported('binary operator on object')
         if op == '/' and self.ctx.fp and self.contract is not None and \
                 self.contract.defs.get('fp_div') == 'uf' and (is_fp_term(a) or is_fp_term(b)):
             return self.ctx.fdiv(to_fp(a), to_fp(b))
         return scalar_arith(op, a, b, self.ctx.fp)
+
+    def find_dunder(self, obj, name):
+        if self.find_method(obj, name) is not None:
+            return name
+        # class-level alias:  __truediv__ = __div__
+        ca = self.class_alias(obj, name)
+        return ca
+
+    def class_alias(self, obj, name):
+        mod = self.mod_of_class(obj.cls)
+        if mod is None or obj.cls not in mod.classes:
+            return None
+        ca = mod.class_attr_assigns(obj.cls)
+        v = ca.get(name)
+        if isinstance(v, ast.Name) and self.find_method(obj, v.id) is not None:
+            return v.id
+        return None
+
+    def call_dunder(self, obj, name, args):
+        real = name if self.find_method(obj, name) is not None else self.class_alias(obj, name)
+        return self.call_method(obj, real, args, {})
 
     def matmul(self, a, b):
         ctx = self.ctx
@@ -1376,6 +1408,14 @@ class Interp:
             if isinstance(idx, slice) and all(x is None or isinstance(x, int)
                                              for x in (idx.start, idx.stop, idx.step)):
                 return base[idx]
+            if is_int_term(idx) and self.pure:
+                # clause evaluation: no path splitting — an if-then-else chain over the elements
+                if not base:
+                    raise PyRaise('IndexError')
+                r = base[-1]
+                for j in range(len(base) - 2, -1, -1):
+                    r = zite(idx == j, base[j], r, ctx.fp)
+                return r
             if is_int_term(idx):
                 # select by case split over the (concrete length) sequence
                 for j in range(len(base)):
@@ -1644,11 +1684,13 @@ class Interp:
         if isinstance(f, ast.Attribute) and isinstance(f.value, ast.Call) and \
                 isinstance(f.value.func, ast.Name) and f.value.func.id == 'super':
             return self.super_call(f.attr, e, env)
-        args, kwargs = self.eval_args(e, env)
+        # python evaluates the callee expression before the arguments
         if isinstance(f, ast.Attribute):
             base = self.eval(f.value, env)
+            args, kwargs = self.eval_args(e, env)
             return self.call_attr(base, f.attr, args, kwargs, ftxt)
         fv = self.eval(f, env)
+        args, kwargs = self.eval_args(e, env)
         return self.call_value(fv, args, kwargs, ftxt)
 
     def eval_args(self, e, env):
@@ -1724,6 +1766,8 @@ class Interp:
     def construct(self, cref, args, kwargs):
         """Instantiate a repo class whose __init__ is listed in `inline` (plain attribute setup)."""
         c = self.contract
+        if c is not None and cref.name in c.defs.get('opaque_classes', ()):
+            return Opaque(cref.name)
         if cref.mod is None or c is None or not (cref.name in c.inline or (cref.name + '.__init__') in c.inline):
             raise Unsupported('construction of %s (list the class in inline to allow it)' % cref.name)
         obj = SObj(cref.name, {})
@@ -2091,4 +2135,4 @@ BUILTINS = {'len', 'range', 'isinstance', 'abs', 'min', 'max', 'float', 'int', '
             'getattr', 'hasattr', 'type', 'repr', 'id', 'callable', 'reversed', 'slice', 'iter',
             'next', 'frozenset', 'complex', 'round', 'divmod', 'issubclass', 'setattr', 'map',
             'old', 'implies', 'iff', 'ite', 'Sum', 'is_none', 'is_inf', 'is_nan', 'same_object',
-            'arr_eq', 'ghost', 'fp_finite', 'is_view', 'is_scalar', 'is_vector', 'approx', 'same_fp', 'same_fp_bool', 'exceeds', 'below'}
+            'arr_eq', 'ghost', 'fp_finite', 'is_view', 'is_scalar', 'is_vector', 'approx', 'same_fp', 'same_fp_bool', 'exceeds', 'below', 'pow', 'floor'}
